@@ -27,6 +27,7 @@ type Frame struct {
 	loops    map[*ssa.BasicBlock]*loopInfo
 	ranges   map[ssa.Value]string // Range instr -> seen-set state key
 	paramEnv map[string]Val
+	curBlock *ssa.BasicBlock
 }
 
 type deferred struct {
@@ -250,6 +251,7 @@ func (f *Frame) body(st State) {
 			f.loopCut(li, &cur)
 		}
 		ended := false
+		f.curBlock = b
 		for _, ins := range b.Instrs {
 			if _, ok := ins.(*ssa.Phi); ok {
 				continue
@@ -457,27 +459,31 @@ func (f *Frame) loopCut(li *loopInfo, cur *State) {
 	}
 	li.entrySt = cur.clone()
 	// 2. havoc what the loop modifies
+	// allocation counter only grows (bumped first: references in havocked memory are below the new counter)
+	oldNext := un.H(cur, "$next", SInt)
+	newNext := un.fresh("next", SInt)
+	un.setH(cur, "$next", newNext)
+	un.assume(cur, Ge(newNext, oldNext))
 	mods := un.eng.loopMods(f, li)
 	if mods["*"] {
 		un.havocAll(cur)
 		un.note("loop " + f.loopName(li) + " havocs the whole heap (body calls a function with unknown effects)")
 	}
+	if mods["*nonghost"] && !mods["*"] {
+		un.havocAllButGhost(cur)
+		un.note("loop " + f.loopName(li) + " havocs all program state (not ghost state): body calls a function that may modify anything")
+	}
 	for _, k := range sortedBoolKeys(mods) {
-		if k == "*" {
+		if k == "*" || k == "*nonghost" {
 			continue
 		}
 		if s, ok := un.heapSort[k]; ok {
-			cur.H[k] = un.freshHeap(k, s)
+			cur.H[k] = un.freshHeap(cur, k, s)
 		} else if s, ok := un.eng.heapSortHint[k]; ok {
 			un.heapInit(k, s)
-			cur.H[k] = un.freshHeap(k, s)
+			cur.H[k] = un.freshHeap(cur, k, s)
 		}
 	}
-	// allocation counter only grows
-	oldNext := un.H(cur, "$next", SInt)
-	newNext := un.fresh("next", SInt)
-	un.setH(cur, "$next", newNext)
-	un.assume(cur, Ge(newNext, oldNext))
 	for _, ins := range li.header.Instrs {
 		phi, ok := ins.(*ssa.Phi)
 		if !ok {
